@@ -73,6 +73,7 @@ def check(seed, n, thorough):
     reqs, metas = [], []
     for i, (text, prog, steps) in enumerate(progs):
         case = {"text": text}
+        proto.sample("isolation", {"text": text[:400], "steps": steps})
         # repeatability and isolation
         fresh, e0 = run_on(V.VirtualMachine(progrun.make_settings()), prog)
         vm = V.VirtualMachine(progrun.make_settings())
